@@ -242,6 +242,76 @@ class GateOptimizeBlock(Case):
 
 
 # =====================================================================================================================
+class GateOptimizeBlockBaseline(Case):
+    """optimize_block: the block handed on as 'the original sub block' - the one the acceptance test block_has_been_optimized
+    and choose_best_solution measure the candidate against - is built from the original_instrs of the SAME specification and
+    carries its name; one solution per specification, in order.  (That original_instrs is the text of the sub block is the
+    obligation original_instrs=the-sub-block of the specification generator, registered under C08 as well.)"""
+    prop = 'C08'
+    tier = 'P'
+    name = "optimize_block(baseline-is-the-specified-sub-block)"
+    functions = (gasol_asm.optimize_block,)
+
+    def make_stubs(self):
+        def st_search(it, sfs_block, params, tout, name):
+            it.trace.append(('search', sfs_block, name))
+            return it.cfg['outcome'][name], 0.1, it.cfg['opt_ids'][name], it.cfg['greedy_ids'][name]
+
+        def st_asm(it, sfs, ids):
+            return Marker('asm', ids=ids, sfs=sfs)
+
+        def st_choose(it, original, optimized_asm, greedy_asm, outcome, params):
+            it.trace.append(('choose', original, optimized_asm, greedy_asm))
+            return optimized_asm, 'superopt'
+
+        def st_gen(it, instrs, name, *a):
+            b = Blk(name)
+            b.instructions = Marker('instructions-of', text=instrs)
+            it.trace.append(('generate', instrs, name, b))
+            return b
+        return {'gasol_asm.search_optimal': st_search, 'gasol_asm.asm_from_ids': st_asm, 'solution_generation.ids2asm.asm_from_ids': st_asm,
+                'gasol_asm.choose_best_solution': st_choose,
+                'gasol_asm.generate_block_from_plain_instructions': st_gen,
+                'sfs_generator.parser_asm.generate_block_from_plain_instructions': st_gen}
+
+    def run(self, H):
+        outcomes = [OptimizeOutcome.no_model, OptimizeOutcome.non_optimal, OptimizeOutcome.optimal, OptimizeOutcome.unsat]
+        names = ["b_0", "b_1"]
+        oc = dict((n, outcomes[H.choice('outcome-' + n, [0, 1, 2, 3])]) for n in names)
+        has = lambda n: oc[n] in (OptimizeOutcome.non_optimal, OptimizeOutcome.optimal)
+        ub = H.choice('ub_greedy', [False, True])
+        H.it.cfg = dict(outcome=oc, opt_ids=dict((n, Marker('opt_ids-' + n) if has(n) else None) for n in names),
+                        greedy_ids=dict((n, Marker('greedy_ids-' + n) if H.choice('greedy-' + n, [False, True]) else None) for n in names))
+        params = types.SimpleNamespace(bound_model=None, direct_timeout=H.choice('direct_timeout', [True, False]), timeout=10,
+                                       dot_generation=False, optimization_enabled=True, ub_greedy=ub, verbose=False)
+        texts = dict((n, Marker('text-of-' + n)) for n in names)
+        sfs = dict((n, {"init_progr_len": 5, "original_instrs": texts[n], "user_instrs": [], "rules": Marker('rules-' + n)}) for n in names)
+        out = H.call(gasol_asm.optimize_block, sfs, params)
+        H.check('raises-nothing', out.ok, info=repr(out.exc))
+        if not out.ok:
+            return
+        sols = out.value
+        H.check('one-solution-per-specification-in-order', len(sols) == len(names))
+        if len(sols) != len(names):
+            return
+        tr = H.it.trace
+        for k, n in enumerate(names):
+            blk = sols[k][0]
+            gen = [t for t in tr if t[0] == 'generate' and t[3] is blk]
+            H.check('original-block-built-from-original_instrs-of-its-own-specification[%d]' % k,
+                    len(gen) == 1 and gen[0][1] is texts[n] and gen[0][2] == n)
+            se = [t for t in tr if t[0] == 'search' and t[2] == n]
+            H.check('search-runs-on-that-specification[%d]' % k, len(se) == 1 and se[0][1] is sfs[n])
+            H.check('outcome-and-rules-are-the-ones-of-that-specification[%d]' % k, sols[k][1] is oc[n] and sols[k][7] is sfs[n]['rules'])
+            cand = sols[k][3]
+            if isinstance(cand, Marker):
+                H.check('candidate-decoded-from-that-specification[%d]' % k, cand.sfs is sfs[n])
+            if ub:
+                ch = [t for t in tr if t[0] == 'choose' and t[1] is getattr(blk, 'instructions', None)]
+                H.check('choice-measured-against-the-instructions-of-that-block[%d]' % k, len(ch) == 1)
+
+
+# =====================================================================================================================
 class EqTok(object):
     """opaque list of prefix/suffix items whose equality with another one is a symbolic verdict"""
 
@@ -691,4 +761,4 @@ class GateRebuildFromLog(Case):
 
 def cases(tier='quick'):
     return [GateOptimizeBlock(), GateCompare(), GateCompareSameBlock(), GateContract(), GateContractFaults(), GateIsolated(), GateIsolatedFaults(),
-            GateFromLog(), GateRebuildFromLog()], {}
+            GateFromLog(), GateRebuildFromLog(), GateOptimizeBlockBaseline()], {}
